@@ -107,7 +107,7 @@ def range_problem(d, texts):
         return "no-file"
     lens = texts.lines(d["file"])
     if lens is None:
-        return "file-unreadable"
+        return "file-unreadable:" + os.path.basename(d["file"])
     sl, sc, el, ec = d["sl"], d["sc"], d["el"], d["ec"]
     if sl < 1 or sc < 1 or el < 1 or ec < 1:
         return "zero-position"
@@ -118,6 +118,32 @@ def range_problem(d, texts):
     if sc > lens[sl - 1] + 1 or ec > lens[el - 1] + 1:
         return "column-outside-line"
     return None
+
+
+def lf_in_string(path):
+    """does a "..." literal of the file contain a line feed (alias strings are scanned without counting it)"""
+    try:
+        t = open(path, encoding="utf-8", errors="replace").read()
+    except OSError:
+        return False
+    ins = False
+    i = 0
+    while i < len(t):
+        ch = t[i]
+        if ins:
+            if ch == "\\":
+                i += 1
+            elif ch == '"':
+                ins = False
+            elif ch == "\n":
+                return True
+        elif ch == '"':
+            ins = True
+        elif ch == "[":      # comment
+            j = t.find("]", i)
+            i = len(t) if j < 0 else j
+        i += 1
+    return False
 
 
 def declares_generic(path):
@@ -148,6 +174,8 @@ def judge(resp, root, texts):
         if d["level"] not in (1, 2):
             bad.append(("level-invalid code=%d" % d["code"], "diagnostic with level %d" % d["level"]))
         pr = range_problem(d, texts)
+        if pr in ("column-outside-line", "line-outside-text", "start-after-end"):
+            pr += " lf-in-string=%d" % lf_in_string(d["file"])
         if pr:
             bad.append(("range code=%d problem=%s wrapped=%d" % (d["code"], pr, min(d["wrapped"], 1)),
                         "diagnostic %d in %s has range (%d,%d)-(%d,%d): %s" % (d["code"], os.path.basename(d["file"] or "?"), d["sl"], d["sc"], d["el"], d["ec"], pr)))
@@ -213,11 +241,14 @@ class Scenario:
         avail = []          # (kind, u, declaring module) not yet called, visible here
         after_dot = True
         n_items = rng.randint(1, 7)
-        menu = ["ok", "ty", "un", "syn", "warn", "dbl", "cap", "chr", "imp", "fn", "call_ok", "call_ty", "call_argerr",
+        menu = ["tyd", "ok", "ty", "un", "syn", "warn", "dbl", "cap", "chr", "imp", "fn", "call_ok", "call_ty", "call_argerr",
                 "spec_keep", "spec_disc", "spec_keep_err", "fwd", "gdecl", "gdecl", "gcall", "gcall", "gcall"]
-        wts = [5, 2, 1, 1, 2, 1, 1, 1, 3, 2, 1, 1, 1, 1, 1, 1, 1, 3, 3, 4, 4, 4]
+        wts = [2, 5, 2, 1, 1, 2, 1, 1, 1, 3, 2, 1, 1, 1, 1, 1, 1, 1, 3, 3, 4, 4, 4]
+        force = []
         for _ in range(n_items):
-            k = rng.choices(menu, wts)[0]
+            k = force.pop() if force else rng.choices(menu, wts)[0]
+            if depth > 0 and k in ("ok", "warn") and rng.random() < 0.5:
+                k = "gdecl"         # imported modules mostly offer generics
             u = self.uid()
             L, E = m["lines"], m["ev"]
             if k == "imp":
@@ -232,6 +263,8 @@ class Scenario:
                     avail.extend((g[0], g[1], j) for g in sub["generics"])
                     self.kinds.add("import")
                     after_dot = True
+                    if sub["generics"] and rng.random() < 0.7:
+                        force.append("gcall")
                     continue
             if k in ("call_ok", "call_ty", "call_argerr") and not funcs:
                 k = "fn"
@@ -247,6 +280,10 @@ class Scenario:
                 zahl = "v%d" % u
             elif k == "ty":
                 L.append("Die Zahl v%d ist wahr." % u)
+                E += ["err:c:e:3001", "sync"]
+            elif k == "tyd":        # a type error whose AST still lowers to valid IR
+                L.append("Wir definieren eine Hausnummer%d als eine Zahl." % u)
+                L.append("Die Hausnummer%d h%d ist %d." % (u, u, u))
                 E += ["err:c:e:3001", "sync"]
             elif k == "un":
                 L.append("Die Zahl v%d ist unbekannt%d." % (u, u))
@@ -301,7 +338,9 @@ class Scenario:
                 m["generics"].append(g)
                 avail.append((g[0], g[1], idx))
             elif k == "gcall":
-                g = avail.pop(rng.randrange(len(avail)))
+                imported = [x for x in avail if x[2] != idx]
+                g = rng.choice(imported) if imported and rng.random() < 0.7 else rng.choice(avail)
+                avail.remove(g)
                 kind, gu, d = g
                 if (kind, gu) in m["generics"]:
                     m["generics"].remove((kind, gu))     # called here: an importer must not call it again (instantiation cache)
@@ -369,6 +408,7 @@ def fixed_scenarios():
     out.append(Fixed("type-error-in-import-of-import",
                      [("main", 'Binde "m1" ein.\nDie Zahl a ist 1.\n'), ("m1", 'Binde "m2" ein.\n'), ("m2", "Die Zahl b ist wahr.\n")],
                      "mb:1 mb:2 err:c:e:3001 sync fin fin fin"))
+    out.append(Fixed("type-error-that-still-lowers", [("main", "Wir definieren eine Hausnummer als eine Zahl.\nDie Hausnummer h ist 1.\n")], "err:c:e:3001 sync fin"))
     out.append(Fixed("error-at-first-token", [("main", ") Die Zahl a ist 1.\n")], "err:p:e:1000 bad sync fin"))
     out.append(Fixed("error-at-last-token", [("main", "Die Zahl a ist 1.\nDie Zahl b ist 2")], "err:p:e:1000 sync fin"))
     return out
@@ -509,8 +549,17 @@ def main():
         "the ~300 range construction sites are NOT modelled: ranges are validated on the generated inputs only (see diag_codes_validated)",
         "kddp's own link step is not run (object output -o x.o); code generation and LLVM are outside the model (parameter codegen_ok)",
     ]
-    if not os.environ.get("C07_DEV_SKIP_COQ"):
-        ck.coq()
+    ck.assumptions = [
+        "C07_faulty_iff_delivered_partial / C07_exit_nonzero_iff_partial hold under no_stale_flag (no resolver/typechecker flags a module that is not being parsed) and "
+        "no_root_scanner_error; both hypotheses are FALSE for the pinned code (C07_faulty_iff_delivered_refuted, C07_delivered_imp_faulty_refuted; replayed, see KNOWN_FINDINGS)",
+        "C07_no_artifact_on_failure_partial additionally assumes the default --module-linken=true (refuted otherwise: C07_no_artifact_on_failure_refuted)",
+        "exit status theorems take codegen_ok as a parameter: a code generator failure on a non-faulty module is outside the flag machine",
+        "renderer theorems: Line/Column < 2^64 (Go uint) and line length + capacity slack + 1 < 2^64",
+        "theorem status: FULL C07_warnings_never_fail, C07_no_artifact_when_faulty, C07_any_faulty_is_root_or_imported, C07_render_total_iff_in_text(_exact), C07_render_total_if_in_text, "
+        "C07_render_degenerate_prints_nothing, C07_newrange_in_text; PARTIAL C07_faulty_iff_delivered_partial, C07_faulty_imp_delivered_partial, C07_delivered_imp_root_faulty_partial, "
+        "C07_exit_nonzero_iff_partial, C07_no_artifact_on_failure_partial; REFUTED C07_faulty_iff_delivered_refuted, C07_delivered_imp_faulty_refuted, C07_exit_nonzero_iff_refuted, C07_no_artifact_on_failure_refuted",
+    ]
+    ck.coq()
     ok, lg = b.ensure_native()
     if not ok:
         ck.violation("build", "kddp/runtime do not build from the current tree", dict(log=lg[-3000:]), no_input=True)
@@ -563,24 +612,43 @@ def main():
             if not os.path.exists(path):
                 json.dump(dict(key=key, files=files, root=root), open(path, "w"), indent=1, ensure_ascii=False)
 
-    def judge_and_report(resp, files, root_rel, root_abs, shrink=True):
+    reported = set()
+
+    def minimize(files, root_rel, key, target=None):
+        """drop files the violation does not need, then shrink the mutated file and the root line-wise"""
+        def still(trial):
+            rr, ra = observe_files(trial, root_rel, "shr")
+            return any(k == key for k, _ in judge(rr, ra, texts))
+        try:
+            if not still(files):
+                return files, None
+            for n in sorted(files):
+                if n != root_rel and n != target and len(files) > 1:
+                    trial = {k: v for k, v in files.items() if k != n}
+                    if still(trial):
+                        files = trial
+            for tgt in ([target] if target and target != root_rel else []) + [root_rel]:
+                if tgt in files and len(files[tgt].split("\n")) > 2:
+                    files = shrink_lines(files, tgt, still, budget=45)
+            rr, ra = observe_files(files, root_rel, "shr")
+            w = [w for k, w in judge(rr, ra, texts) if k == key]
+            return files, (rr, w[0] if w else None)
+        except Exception as e:      # the shrinker is best effort
+            log("[shrink] %s" % e)
+            return files, None
+
+    def judge_and_report(resp, files, root_rel, root_abs, shrink=True, target=None, extra=None):
         bad = judge(resp, root_abs, texts)
-        seen = set()
         for key, what in bad:
-            if key in seen:
+            if key in reported:
                 continue
-            seen.add(key)
-            f2 = files
-            r2 = resp
-            if shrink and files and len(files[root_rel].split("\n")) > 3:
-                def still(trial):
-                    rr, ra = observe_files(trial, root_rel, "shr")
-                    return any(k == key for k, _ in judge(rr, ra, texts))
-                f2 = shrink_lines(files, root_rel, still)
-                r2, ra = observe_files(f2, root_rel, "shr")
-                w2 = [w for k, w in judge(r2, ra, texts) if k == key]
-                what = w2[0] if w2 else what
-            report(key, what, f2, root_rel, r2)
+            reported.add(key)
+            f2, r2 = files, resp
+            if shrink:
+                f2, res = minimize(files, root_rel, key, target)
+                if res:
+                    r2, what = res[0], (res[1] or what)
+            report(key, what, f2, root_rel, r2, extra)
         return bad
 
     # ---- 0. corpus first ------------------------------------------------------------------------
@@ -683,16 +751,32 @@ def main():
                             measured_slack={repr(g[0][:12]): g[2] for g in grids})
 
     log('[c07] %.1fs renderer done' % (time.time()-ck.t0))
+    # ---- configuration: which of the three repairs does the tree under test contain? --------------
+    fx = fixed_scenarios()
+    byname = {next(k for k in f.kinds if k.startswith("fixed:"))[6:]: f for f in fx}
+    cdir = os.path.join(sc, "cfg")
+    w1 = byname["discarded-instantiation-of-imported-generic"].write(os.path.join(cdir, "a"))
+    w2 = byname["root-scanner-error"].write(os.path.join(cdir, "b"))
+    w3 = byname["type-error-that-still-lowers"].write(os.path.join(cdir, "c"))
+    r1, r2 = _run_chunk(diagx, [dict(id="a", file=w1), dict(id="b", file=w2)], env, 60)
+    p3 = subprocess.run([b.kddp, "kompiliere", w3, "-o", os.path.join(cdir, "c", "o.o"), "-O", "0", "--module-linken=false"], capture_output=True, text=True, env=env, cwd=os.path.join(cdir, "c"), timeout=120)
+    cfg = "%d%d%d" % (int(not any(m["faulty"] for m in (r1.get("modules") or []))), int(bool(r2.get("faulty"))),
+                      int(p3.returncode != 0 and "Fehlerhafter Quellcode" in p3.stderr))
+    ck.cov["configuration"] = dict(bits=cfg, meaning="(instantiation restores the declaring module's Faulty, scanner errors mark the module, --module-linken=false refuses a faulty module)",
+                                   theorems="pinned: *_refuted + *_partial" if cfg == "000" else ("repaired: *_repaired (full)" if cfg == "111" else "NONE for this mix"))
+    log("[c07] configuration of the tree under test: %s" % cfg)
+    if cfg not in ("000", "111"):
+        ck.broken_obligation("the tree contains some but not all of the three repairs (configuration %s): Props/C07.v has theorems for the pinned (000) and the repaired (111) machine only" % cfg, "")
+
     # ---- F. flags: constructed programs -> model -> real frontend ----------------------------------
     nF = 260 if ck.quick else 4000
     scen = []
-    fx = fixed_scenarios()
     for i in range(nF + len(fx)):
         s = fx[i] if i < len(fx) else Scenario(rng, maxmods=rng.choice([1, 2, 3, 4, 5]))
         d = os.path.join(sc, "F", str(i))
         root = s.write(d)
         scen.append((s, d, root))
-    mres = run_model(["F " + " ".join(s.trace()) for s, _, _ in scen])
+    mres = run_model(["F " + cfg + " " + " ".join(s.trace()) for s, _, _ in scen])
     fres = run_diagx(diagx, [dict(id=str(i), file=root) for i, (_, _, root) in enumerate(scen)], env)
     ck.count(len(scen))
     kinds = {}
@@ -709,8 +793,8 @@ def main():
             scen_obs.append(None)
             continue
         note_codes(resp)
-        bad = judge_and_report(resp, s.sources(), "main.ddp", root)
         if "rejected" in m or not m["done"]:
+            judge_and_report(resp, s.sources(), "main.ddp", root)
             ck.broken_obligation("a constructed trace is not admissible for the model: %s -> %s" % (" ".join(s.trace()), ml), "")
             scen_obs.append(None)
             continue
@@ -722,13 +806,24 @@ def main():
         if delivered or any(faulty.values()):
             ck.nontrivial(("F", tuple(s.trace())))
         scen_obs.append((m, delivered, faulty))
-        if (delivered != m["delivered"] or got_f != want_f) and flag_mismatch is None and not bad:
+        differs = delivered != m["delivered"] or got_f != want_f
+        bad = judge(resp, root, texts)
+        if bad and differs:
+            # the property fails here by a mechanism the model does not have (the model mirrors the recorded defects only)
+            for key, what in bad:
+                k2 = key + " [not the modelled mechanism]"
+                if k2 not in reported:
+                    reported.add(k2)
+                    report(k2, what + "; model: delivered %s Faulty %s" % (m["delivered"], want_f), s.sources(), "main.ddp", resp, dict(trace=" ".join(s.trace())))
+        elif bad:
+            judge_and_report(resp, s.sources(), "main.ddp", root)
+        elif differs and (flag_mismatch is None or len(s.trace()) < len(flag_mismatch[1].split())):
             flag_mismatch = (s.sources(), " ".join(s.trace()), m["delivered"], delivered, want_f, got_f)
     if flag_mismatch:
         # the implementation satisfied the property on this input but not the model: neighbours were all judged above
         ck.broken_obligation("correspondence Flags model vs frontend fails (model no longer covers the code): trace %s: delivered model %s impl %s; Faulty model %s impl %s; sources %s"
                              % (flag_mismatch[1], flag_mismatch[2], flag_mismatch[3], flag_mismatch[4], flag_mismatch[5], json.dumps(flag_mismatch[0], ensure_ascii=False)), "")
-    ck.cov["flags"] = dict(programs=len(scen), item_kinds=kinds, model_says_stale=n_stale, model_says_root_scanner_error=n_rootscan)
+    ck.cov["flags"] = dict(programs=len(scen), item_kinds=kinds, model_says_stale=n_stale, model_says_root_scanner_error=n_rootscan, agree=flag_mismatch is None)
 
     log('[c07] %.1fs flags done' % (time.time()-ck.t0))
     # ---- D. direct judgement on goldens and mutants ----------------------------------------------
@@ -740,7 +835,7 @@ def main():
     for top, rel, sib in units:
         dreqs.append(dict(id="g", file=os.path.join(mirror, top, rel)))
         dmeta.append(("golden", top, rel, None, None))
-    nD = 2600 if ck.quick else 60000
+    nD = 2600 if ck.quick else 30000
     gen_roots = [s for s, _, _ in scen if not any(x in s.kinds for x in ("ty", "un", "syn", "dbl", "cap", "chr"))][:40]
     mutkinds = {}
     for i in range(nD):
@@ -781,7 +876,6 @@ def main():
     dres = run_diagx(diagx, dreqs, env, timeout=90)
     ck.count(len(dreqs))
     n_err_runs = n_warn_only = n_clean = 0
-    dkeys = {}
     for req, meta, resp in zip(dreqs, dmeta, dres):
         if resp is None or "crash" in resp or resp.get("panic"):
             stats["frontend_crash_or_panic"] += 1      # totality of the frontend is C03's property
@@ -799,12 +893,9 @@ def main():
         else:
             n_clean += 1
         bad = judge(resp, req["file"], texts)
-        for key, what in bad:
-            if key in dkeys:
-                continue
-            dkeys[key] = 1
-            # replayable file set: the mutated file (+ the untouched directory for goldens)
+        if any(key not in reported for key, _ in bad):
             kind, top, rel, files, mut = meta
+            target = None
             if files is None:
                 base = os.path.join(TESTDATA, top)
                 files = {}
@@ -813,24 +904,11 @@ def main():
                 if mut:
                     if mut[0]:
                         files[mut[0]] = mut[1]
+                        target = mut[0]
                     else:
                         rel = os.path.join(os.path.dirname(rel), "zzmut.ddp")
                         files[rel] = mut[1]
-                # keep only what the root can reach cheaply: the whole (small) golden directory
-            root_rel = rel
-            def still(trial, key=key, root_rel=root_rel):
-                rr, ra = observe_files(trial, root_rel, "shr")
-                return any(k == key for k, _ in judge(rr, ra, texts))
-            try:
-                if still(files):
-                    files = shrink_lines(files, mut[0] if (mut and mut[0]) else root_rel, still, budget=60)
-                    rr, ra = observe_files(files, root_rel, "shr")
-                    w2 = [w for k, w in judge(rr, ra, texts) if k == key]
-                    report(key, w2[0] if w2 else what, files, root_rel, rr, dict(mutation=kind))
-                    continue
-            except Exception as e:     # the shrinker is best effort
-                log("[shrink] %s" % e)
-            report(key, what, files, root_rel, resp, dict(mutation=kind))
+            judge_and_report(resp, files, rel, req["file"], shrink=True, target=target, extra=dict(mutation=kind))
     ck.cov["direct"] = dict(goldens=len(units), mutants=nD, mutation_kinds=mutkinds, runs_with_error=n_err_runs, runs_warning_only=n_warn_only,
                             runs_clean=n_clean, **stats)
 
@@ -896,7 +974,7 @@ def main():
         # model: outcome under (link_modules, codegen_ok = true)
         want = m["out"][0] if lm else m["out"][2]
         got = "O" if (rc == 0 and size > 0) else "R"
-        if not lm and any(faulty.values()):
+        if not lm and any(faulty.values()) and cfg[2] == "0":
             continue        # --module-linken=false hands a faulty AST to the code generator: codegen_ok is not known
         if want != got and not ck.violations:
             ck.broken_obligation("correspondence Flags.compile vs kddp fails: option %s model %s kddp exit=%d object=%d trace %s" % (opt, want, rc, size, " ".join(s.trace())), err[-800:])
